@@ -1,0 +1,25 @@
+//go:build verif
+
+package serializableorderedmap
+
+// Contracts for SerializableOrderedMap.Decode (property C02: decoding never panics, never reads outside the input and never
+// allocates in proportion to a length field that exceeds the remaining input), read by the verification machinery in
+// /verif. Comment-only file. serix.API.Decode is the pinned serializer dependency (assumed contract:
+// /verif/contracts/trusted/serix.spec); the ordered map is /repo/ds/orderedmap (verified in C11). Instantiated for
+// uint32 keys and values.
+
+/*@
+-- Decode: the entry count and then every key and value are decoded from what is left of the input; the offsets stay
+-- inside the input; nothing is allocated on the strength of the announced entry count (entries are stored one by one as
+-- they arrive: a count that the remaining bytes cannot back ends in a decoding error after at most len(b) entries' worth
+-- of work, not in a large allocation)
+func SerializableOrderedMap.Decode
+  instantiate K: uint32
+  instantiate V: uint32
+  opt allocbound len(b)
+  opt assume-no-overflow
+  requires o != nil && o.OrderedMap != nil && unlocked(o.OrderedMap.mutex) && api != nil
+  modifies everything
+  loop 1 invariant 0 <= bytesRead && bytesRead <= len(b) && o != nil && o.OrderedMap != nil && unlocked(o.OrderedMap.mutex) && api != nil
+  ensures err == nil ==> 0 <= bytesRead && bytesRead <= len(b)
+@*/
